@@ -21,11 +21,23 @@ ACTIONS = ['open', 'open_rej', 'ws_open', 'poll', 'post_msg', 'post_two', 'post_
 TIMEOUTISH = {'ping timeout', 'transport close', 'transport error'}
 
 
+class SleepyApp(RejectOnHeader):
+    """Handlers that take virtual time: the disconnect handler sleeps 0.25 s, the message handler 0.125 s."""
+    def disconnect(self, sid, reason):
+        return [('sleep', 0.25)]
+
+    def message(self, sid, data):
+        return [('sleep', 0.125)]
+
+
+VARIANT = ['plain']
+
+
 class Side:
     """One world plus the client-side bookkeeping for it."""
     def __init__(self, impl):
         self.w = peer.make_world(impl, server_kwargs=dict(ping_interval=25, ping_timeout=20, async_handlers=False),
-                                 behaviour=RejectOnHeader())
+                                 behaviour=SleepyApp() if VARIANT[0] == 'sleepy' else RejectOnHeader())
         self.impl = impl
         self.sids = []
         self.ws = {}          # sid -> ws handle
@@ -185,6 +197,8 @@ def build(hist):
                 da, db = a.w.next_deadline(), b.w.next_deadline()
                 ds = [d for d in (da, db) if d is not None]
                 if not ds:
+                    a.w.teardown()
+                    b.w.teardown()
                     return None, None, 'disabled'
                 t = min(ds)
                 for s in (a, b):
@@ -195,6 +209,8 @@ def build(hist):
             if ra != rb:
                 return a, b, 'enabledness differs for %s: sync=%s async=%s' % (act, ra, rb)
             if not ra:
+                a.w.teardown()
+                b.w.teardown()
                 return None, None, 'disabled'
         return a, b, None
     except Exception:
@@ -271,7 +287,9 @@ def run(ctx):
     jobs = []
     for f, g in seeds2:
         jobs.append((f, g))
-    res = parallel.pmap_chunks(_work2, [[(depth, j)] for j in jobs] + [[(depth, (f,))] for f in ('open_rej', 'get_unknown', 'open', 'ws_open')],
+    # second pass with handlers that take virtual time (a suspended handler is where the two servers could differ)
+    sleepy = [[(depth - 1, ('@sleepy',) + j)] for j in jobs]
+    res = parallel.pmap_chunks(_work2, [[(depth, j)] for j in jobs] + [[(depth, (f,))] for f in ('open_rej', 'get_unknown', 'open', 'ws_open')] + sleepy,
                                ctx.workers, ctx.seed, maxtasks=2)
     states = transitions = 0
     nv = 0
@@ -283,7 +301,7 @@ def run(ctx):
             for k, text, hist in viols[:200]:
                 rep.add(report.Violation(
                     {'impl': 'both', 'kind': 'divergence:' + k, 'trigger': hist[-1] if hist else ''},
-                    text[:700], {'history': list(hist)}, weight=(len(hist), 0)))
+                    text[:700], {'history': list(hist), 'variant': 'sleepy' if text.startswith('[sleepy]') else 'plain'}, weight=(len(hist), 0)))
     rep.coverage = {
         'states': states, 'transitions': transitions, 'traces_validated_against_impl': transitions * 2,
         'samples': [{'history': ['open', 'poll', 'ws_connect', 'ws_probe']}, {'history': ['ws_open', 'ws_msg', 'disconnect_sid']},
@@ -291,7 +309,8 @@ def run(ctx):
         'evaluations': transitions, 'distinct_nontrivial': states,
         'rule': 'breadth-first search over %d actions %r to depth %d, the same history applied in lock step to Server and AsyncServer '
                 'under the default schedule with a shared clock; de-duplication on the pair of canonical digests (done per work '
-                'partition: histories are partitioned by their first two actions); a diverged history is reported and not extended. '
+                'partition: histories are partitioned by their first two actions); a diverged history is reported and not extended; a second '
+                'pass one level shallower runs with handlers that take virtual time (disconnect 0.25 s, message 0.125 s). '
                 'states = distinct digest pairs; transitions = histories executed on both implementations.' % (len(ACTIONS), ACTIONS, depth),
         'exhaustive': True, 'bound_completed': depth, 'divergences_total': nv,
     }
@@ -306,6 +325,11 @@ def run(ctx):
 def _work2(chunk):
     out = []
     for depth, prefix in chunk:
+        if isinstance(prefix, tuple) and prefix and prefix[0] == '@sleepy':
+            VARIANT[0] = 'sleepy'
+            prefix = prefix[1:]
+        else:
+            VARIANT[0] = 'plain'
         try:
             out.append(explore_from(depth, tuple(prefix)))
         except report.Livelock as e:
@@ -334,7 +358,7 @@ def explore_from(depth, prefix):
             diffs = compare(a, b)
             if diffs:
                 k, va, vb = diffs[0]
-                viols.append((k, 'after %r: %s differs: sync=%r async=%r' % (list(hist), k, va, vb), hist))
+                viols.append((k, '[%s] after %r: %s differs: sync=%r async=%r' % (VARIANT[0], list(hist), k, va, vb), hist))
                 continue
             key = (digest.world_digest(a.w), digest.world_digest(b.w), tuple(sorted(a.hs.items())))
             if key in seen:
@@ -354,6 +378,7 @@ def explore_from(depth, prefix):
 
 def replay(ctx, payload):
     hist = tuple(payload['replay']['history'])
+    VARIANT[0] = payload['replay'].get('variant', 'plain')
     a, b, err = build(hist)
     if a is None:
         print('history not enabled')
